@@ -131,7 +131,20 @@ def main():
                     opened.wait(10)
             return glocal
 
+        body_file = '/' + job['gate'].replace('.', '/') + '.py'
+
+        def blocal(frame, event, arg):
+            if event == 'line' and not reached.is_set():
+                reached.set()
+                opened.wait(10)
+            return blocal
+
         def gtracer(frame, event, arg):
+            if job.get('gate_at') == 'body':
+                # hold the first thread at the first line of the module body (the module is in sys.modules, still initialising)
+                if event == 'call' and frame.f_code.co_name == '<module>' and frame.f_code.co_filename.endswith(body_file):
+                    return blocal
+                return None
             if event == 'call' and frame.f_code.co_name == '_find_and_load_unlocked':
                 return glocal
             return None
@@ -154,7 +167,7 @@ def main():
         t1.start()
         out['gate_reached'] = reached.wait(10)
         t2.start()
-        t2.join(10)
+        t2.join(3 if job.get('gate_at') == 'body' else 10)      # inside the body the second importer normally waits for the lock
         opened.set()
         t1.join()
         t2.join()
